@@ -68,6 +68,26 @@ func init() {
 			Hints: hotspotStatHints, Acts: hotspotStatActs, RangeVars: map[string]string{"tc": "TrafficShapingController"}},
 		target{Dir: "core/hotspot", Func: "ConcurrencyStatSlot.OnCompleted", Name: "hotspot_onCompleted_step", LoopBody: 1,
 			Hints: hotspotStatHints, Acts: hotspotStatActs, RangeVars: map[string]string{"tc": "TrafficShapingController"}},
+
+		// C05 / C06: Slot.Check - one iteration of the loop over the resource's controllers: what is done with
+		// the controller's result (nil / blocked / should-wait).  Result code 1 = `return r` (the blocked result).
+		// Trace: (7,[batch]) canPassCheck(tc, arg, batch), (8,[ns]) util.Sleep(ns).
+		target{Dir: "core/hotspot", Func: "Slot.Check", Name: "hotspot_slot_check_step", LoopBody: 1,
+			Hints: map[string]hint{
+				"ctx.Resource.Name()":           {"", "opaque"},
+				"ctx.Input.BatchCount":          {"batch_count", "uint32"},
+				"ctx.RuleCheckResult":           {"", "opaque"},
+				"getTrafficControllersFor(res)": {"", "opaque"},
+				"tc.ExtractArgs(ctx)":           {"", "opaque"},
+				"r.Status()":                    {"r_status", "uint8"},
+				"r.NanosToWait()":               {"r_nanos", "int64"},
+			},
+			Acts: map[string]act{
+				"canPassCheck": {Tag: 7, Keep: []int{2}, Ret: hint{"", "opaque"}},
+				"util.Sleep":   {Tag: 8, Keep: []int{0}},
+			},
+			Errs:      map[string]int{"r": 1},
+			RangeVars: map[string]string{"tc": "TrafficShapingController"}},
 	)
 }
 
